@@ -490,6 +490,31 @@ def r15_5(ctx):
                            "all junctions are re-glued to shared point objects, the outer ends to the original ones",
                   floor=1)
     fn = ctx.fn("jordancurve.JordanCurve.__split_segment")
+
+    class Iv(Piece):
+        """the restriction of the original segment to [lo, hi]; splitting it at u cuts at lo + u (hi - lo)"""
+
+        def __init__(self, lo, hi):
+            Piece.__init__(self, f"[{lo}, {hi}]", 3)
+            self.lo, self.hi = lo, hi
+
+        def split(self, nodes):
+            edges = [self.lo] + [self.lo + Fr(u) * (self.hi - self.lo) for u in nodes] + [self.hi]
+            return tuple(Iv(a, b) for a, b in zip(edges[:-1], edges[1:]))
+    # first on pieces that know which part of the segment they are: however the cutting is organised (all nodes at once,
+    # or one after the other), the pieces must be the restrictions to [0, 1/3], [1/3, 2/3], [2/3, 1]
+    J = Obj("J", segments=(Piece("s0"), Iv(Fr(0), Fr(1)), Piece("s2")))
+    try:
+        Runner(ctx, set(), None).call_fn(fn, [J, 1, (Fr(2, 3), Fr(1, 3))])
+        got = [(x.lo, x.hi) for x in J.__dict__["segments"] if isinstance(x, Iv)]
+        want = [(Fr(0), Fr(1, 3)), (Fr(1, 3), Fr(2, 3)), (Fr(2, 3), Fr(1))]
+        if got != want:
+            out.bad(fn.qname, "the pieces of a segment split at 1/3 and 2/3 are not its restrictions to the three node intervals",
+                    where=fn.where(), detail=f"pieces cover {[(str(a), str(b)) for a, b in got]}")
+            return out
+        out.ok(fn.qname, "split at 2/3, 1/3 (unsorted): pieces cover [0, 1/3], [1/3, 2/3], [2/3, 1]", where=fn.where())
+    except (Undecided, Raised, TypeError):
+        pass                              # the second world decides
     s0, s1, s2 = Piece("s0"), Piece("s1", 3), Piece("s2")
     pieces = [Piece("p0", 3), Piece("p1", 3), Piece("p2", 3)]
     asked = []
